@@ -300,7 +300,7 @@ theorem wallet_handouts_are_real (src : Source α) (ops : List (WalletOp α)) :
   (wallet_refines_handed_out src ops).2.real
 
 /-- **Failing calls change nothing** (from any state, reachable or not): an unknown branch, a
-    negative index, a position the subclass refuses or a script with no address leave
+    negative index, a position the subclass refuses, a script with no address or a key `add` refuses leave
     `_next_index` and the ledger exactly as they were. -/
 theorem wallet_failing_call_changes_nothing (src : Source α) (w : Wallet α) (op : WalletOp α) (e : Err)
     (h : (Wallet.step src op w).2 = .err e) : (Wallet.step src op w).1 = w := by
@@ -322,7 +322,10 @@ theorem wallet_failing_call_changes_nothing (src : Source α) (w : Wallet α) (o
   | info a => simp only [Wallet.step]; split <;> rfl
   | contains a => rfl
   | len => rfl
-  | add a => simp [Wallet.step] at h
+  | add oa =>
+    cases oa with
+    | none => rfl
+    | some a => simp [Wallet.step] at h
 
 end Wallet
 
@@ -402,12 +405,73 @@ theorem serves_only_secp256k1 (secp ec : CurveId) (flag : Bool) (h : servesCurve
   simp only [servesCurve, Bool.and_eq_true, decide_eq_true_eq] at h
   exact curve_key_injective ec secp h.2
 
-/-! ## T5 — the backend flag's history does not show -/
+/-! ## T5 — the backend flag's history does not show
 
-/-- **Backend independence.**  If both arms compute the same function `M` (that is C04), then for
-    every history of `set_libsecp256k1_serving` calls (including refused ones) interleaved with
-    API calls, from either initial flag, every API call answers `M x`. -/
-theorem backend_history_independent {χ ν : Type} (fC fPy M : χ → ν) (serves : χ → Bool)
+What is proved here is the *dispatch and capture logic*.  That the two arms compute the same function
+is NOT proved in this file: it is property C04's business (tied there by differential streams on
+the real code), and the two theorems that need it say so in their names and take it as hypotheses. -/
+
+/-- **An object's arm is fixed at construction.**  `dsa.Signer` / `ssa.Signer` / `_TweakChain` ask the
+    dispatch predicate once, in `__init__`; whatever flips, constructions and calls follow, the arm an
+    existing object uses is the one it captured (no hypothesis on the arms). -/
+theorem captured_arm_fixed_at_construction {χ ν : Type} (fC fPy : χ → ν) (ops : List (CapOp χ))
+    (st : CapState) (i : Nat) (arm : Bool) (h : st.objs[i]? = some arm) :
+    (Cap.run fC fPy ops st).2.objs[i]? = some arm := by
+  induction ops generalizing st with
+  | nil => exact h
+  | cons op ops ih =>
+    simp only [Cap.run]
+    apply ih
+    cases op with
+    | set serving installed => simp only [Cap.step]; split <;> exact h
+    | build served =>
+      simp only [Cap.step]
+      have hi : i < st.objs.length := by
+        rcases Nat.lt_or_ge i st.objs.length with hlt | hge
+        · exact hlt
+        · rw [List.getElem?_eq_none hge] at h; cases h
+      rw [List.getElem?_append_left hi]; exact h
+    | use j x => simp only [Cap.step]; split <;> exact h
+    | call served x => exact h
+
+/-- and it is the flag as it stood when the object was built: a signer built while the bindings serve
+    keeps delegating after `set_libsecp256k1_serving(serving=False)`, and conversely. -/
+theorem captured_arm_is_flag_at_construction {χ ν : Type} (fC fPy : χ → ν) (ops : List (CapOp χ))
+    (st : CapState) (served : Bool) :
+    (Cap.run fC fPy (.build served :: ops) st).2.objs[st.objs.length]? = some (st.flag && served) := by
+  simp only [Cap.run, Cap.step]
+  apply captured_arm_fixed_at_construction
+  simp
+
+/-- **History independence, GIVEN that the arms are equal (C04).**  If both arms compute `M`, every use
+    of an object built under any earlier flag value, and every free call, answers `M x` — what a
+    fresh object answers — through any history of flips (refused ones included). -/
+theorem captured_objects_answer_fresh_given_arms_equal {χ ν : Type} (fC fPy M : χ → ν)
+    (hC : ∀ x, fC x = M x) (hPy : ∀ x, fPy x = M x) (ops : List (CapOp χ)) (st : CapState) :
+    (Cap.run fC fPy ops st).1 = Cap.reference M ops st := by
+  induction ops generalizing st with
+  | nil => rfl
+  | cons op ops ih =>
+    cases op with
+    | set serving installed =>
+      simp only [Cap.run, Cap.step, Cap.reference]
+      split <;> simp [ih]
+    | build served => simp only [Cap.run, Cap.step, Cap.reference, ih]
+    | use i x =>
+      simp only [Cap.run, Cap.step, Cap.reference, ih]
+      rcases Nat.lt_or_ge i st.objs.length with hlt | hge
+      · have : st.objs[i]? = some st.objs[i] := List.getElem?_eq_getElem hlt
+        simp only [this, hlt, if_true]
+        split <;> simp [hC, hPy]
+      · simp [List.getElem?_eq_none hge, Nat.not_lt.mpr hge]
+    | call served x =>
+      simp only [Cap.run, Cap.step, Cap.reference, ih]
+      split <;> simp [hC, hPy]
+
+/-- **Backend independence of free functions, GIVEN that the arms are equal (C04).**  For every
+    history of `set_libsecp256k1_serving` calls (including refused ones) interleaved with API calls,
+    from either initial flag, every call answers `M x`. -/
+theorem backend_history_independent_given_arms_equal {χ ν : Type} (fC fPy M : χ → ν) (serves : χ → Bool)
     (hC : ∀ x, fC x = M x) (hPy : ∀ x, fPy x = M x) (ops : List (BackendOp χ)) (flag : Bool) :
     Backend.run fC fPy serves ops flag = Backend.reference M ops flag := by
   induction ops generalizing flag with
@@ -421,8 +485,9 @@ theorem backend_history_independent {χ ν : Type} (fC fPy M : χ → ν) (serve
       simp only [Backend.run, Backend.step, Backend.reference, dispatch, ih]
       split <;> simp [hC, hPy]
 
-/-- a memoised, dispatching API: the table cached under one flag is the table under the other. -/
-theorem memo_over_backend {χ κ ν : Type} [DecidableEq κ] (fC fPy M : χ → ν) (serves : χ → Bool)
+/-- a memoised, dispatching API, GIVEN that the arms are equal: the table cached under one flag is the
+    table under the other. -/
+theorem memo_over_backend_given_arms_equal {χ κ ν : Type} [DecidableEq κ] (fC fPy M : χ → ν) (serves : χ → Bool)
     (hC : ∀ x, fC x = M x) (hPy : ∀ x, fPy x = M x) (key : χ → κ)
     (sound : ∀ x y, key x = key y → M x = M y) (flag : Bool) (ops : List (MemoOp χ κ ν)) :
     (Memo.run (dispatch fC fPy serves flag) key ops []).1 = Memo.reference M ops := by
@@ -455,9 +520,16 @@ example : (Signer.run dsaCode [.sign true, .enter, .sign true, .exit, .sign true
     [.sig, .self_, .sig, .none_, .err .value] := by decide
 -- secp256k1 and the curve generated by −G (toy numbers): different keys
 example : curveKey ⟨23, 0, 7, 1, 10, 29, 1⟩ ≠ curveKey ⟨23, 0, 7, 1, 13, 29, 1⟩ := by decide
+-- a signer built while serving keeps delegating after the switch is turned off; a free call does not
+example : (Cap.run (fun _ : Nat => "C") (fun _ => "P")
+    [.build true, .set false true, .use 0 7, .call true 7, .build true, .set true true, .use 1 7, .use 0 7] ⟨true, []⟩).1 =
+    [none, none, some (.ok "C"), some (.ok "P"), none, none, some (.ok "P"), some (.ok "C")] := by decide
 -- a wallet: address(0,5), address(0,2), next(0) → index 6; a bad branch changes nothing
 def demoSrc : Source Nat := ⟨[0, 1], fun b i => if i < 100 then some (b.toNat * 1000 + i + 1) else none, fun a => a == 0⟩
 example : (Wallet.run demoSrc [.address 0 5, .address 0 2, .next 0, .address 7 0, .next 1, .len] Wallet.empty).1 =
     [.addr 6, .addr 3, .addr 7, .err .value, .addr 1001, .nat 4] := by decide
+
+-- a refused key leaves the wallet alone
+example : (Wallet.run demoSrc [.add (some 9), .add none, .len] Wallet.empty).1 = [.addr 9, .err .value, .nat 1] := by decide
 
 end Props.C20
